@@ -13,7 +13,7 @@ from .stmts import StmtMixin, _Break, _Continue
 from . import specs as S
 
 BUILTIN_TYPES = ['int', 'str', 'bool', 'tuple', 'float', 'list', 'dict', 'NoneType', 'type', 'ndarray', 'object',
-                 'Iterable', 'function']
+                 'Iterable', 'function', 'DataFrame', 'Row', 'Random', 'Logger']
 
 
 class Obligation:
@@ -30,11 +30,34 @@ class Obligation:
         self.backend = None
         self.model = None
 
+    def prepared(self):
+        """Goal-directed instantiation (sound: only adds instances of hypotheses): a universally quantified goal
+        is skolemised here, and every universally quantified hypothesis over integer variables is instantiated at
+        the goal's skolem constants (same arity: positionally; unary hypotheses: at each constant).  This stands
+        in for triggers when the index terms are arithmetic (row-major ids), where E-matching has no pattern."""
+        goal = self.goal
+        extra = []
+        if z3.is_quantifier(goal) and goal.is_forall() and goal.num_vars() <= 4 and \
+                all(goal.var_sort(k) == I for k in range(goal.num_vars())):
+            n = goal.num_vars()
+            sks = [z3.Int(f'sk!{goal.var_name(k)}') for k in range(n)]
+            goal = z3.substitute_vars(goal.body(), *reversed(sks))
+            for h in self.hyps:
+                if z3.is_quantifier(h) and h.is_forall() and all(h.var_sort(k) == I for k in range(h.num_vars())):
+                    m = h.num_vars()
+                    if m == n:
+                        extra.append(z3.substitute_vars(h.body(), *reversed(sks)))
+                    elif m == 1 and n <= 3:
+                        for c in sks:
+                            extra.append(z3.substitute_vars(h.body(), c))
+        return list(self.hyps) + extra, goal
+
     def smt2(self):
         s = z3.Solver()
-        for h in self.hyps:
+        hyps, goal = self.prepared()
+        for h in hyps:
             s.add(h)
-        s.add(z3.Not(self.goal))
+        s.add(z3.Not(goal))
         return s.to_smt2()
 
 
